@@ -671,11 +671,34 @@ impl<RW: QueueRW<T>, T> FutInnerRecv<RW, T> {
         rval
     }
 
-    #[inline(always)]
     pub fn recv(&self) -> Result<T, RecvError> {
-        let rval = self.reader.recv();
-        self.prod_wait.notify_all();
-        rval
+        self.reader.examine_signals();
+        loop {
+            #[cfg(multiqueue2_verif)]
+            crate::verif_hooks::spin_loop();
+            match self.reader.queue.try_recv(&self.reader.reader) {
+                Ok(v) => {
+                    self.prod_wait.notify_all();
+                    return Ok(v);
+                }
+                Err((_, TryRecvError::Disconnected)) => {
+                    self.prod_wait.notify_all();
+                    return Err(RecvError);
+                }
+                Err((_, TryRecvError::Empty)) => {
+                    // A failed attempt on a shared stream may have pinned and
+                    // released a slot a sender was refused for: tell the senders
+                    // before going to sleep, or they stay parked for ever
+                    self.prod_wait.notify_all();
+                    let count = self.reader.reader.load_count(Relaxed);
+                    let cell = self.reader.queue.wait_cell(count);
+                    self.reader
+                        .queue
+                        .waiter
+                        .wait(count, cell, &self.reader.queue.writers);
+                }
+            }
+        }
     }
 
     /// Creates a new stream and returns a FutInnerRecv on that stream
